@@ -31,3 +31,26 @@ Proof.
   exists k, s'. intros k'.
   apply (only_user_exceptions (shape (hc_g c)) (gens_of (hc_g c)) apply raises cstore cget cset interfere k _ (SVal v) s' Hk).
 Qed.
+
+(* C11 with failing calls: under any schedule of the other threads (a time-dependent environment that keeps entries Good)
+   and any behaviour of the user functions, a call whose failure-free value is v is, at every step, still running, or
+   has returned v, or has stopped with the exception of a user function that raised *)
+Theorem scheduled_only_user_exceptions apply (g : graph) (ins : list (nat * val)) raises :
+  wf g ->
+  (forall n v e ps, aget ins n = Some v -> nth n g Leaf = Inner e ps -> False) ->
+  (forall n e ps, nth n g Leaf = Inner e ps -> node_ok e ps) ->
+  (forall n e ps, nth n g Leaf = Inner e ps -> edge_ok e (List.length ps) = true) ->
+  (forall n c ps, nth n g Leaf = Inner (ECache c) ps ->
+     exists F h v, sem apply quiet g ins F n = Some (h, v) /\ EqFacts.nonum_h h = true) ->
+  forall o F h v (σ : cstore) (env : nat -> cstore -> cstore),
+  (forall t s, CInvS apply s -> CInvS apply (env t s)) ->
+  o <= List.length g -> sem apply quiet g ins F o = Some (h, v) -> CInvS apply σ ->
+  exists k s', forall k',
+    let out := call (shape g) (gens_of g) apply raises tstore tget tset (tenv env) ins o (0, σ) k' in
+    (exists s1, out = Running tstore s1 /\ k' < k) \/ out = Finished tstore (SVal v) s' \/ user_raise raises tstore out.
+Proof.
+  intros Hwf Hin Hnode Hedge Htot o F h v σ env Henv Ho Hsem Hc.
+  destruct (call_transparent_env apply quiet g ins Hwf Hin Hnode Hedge Htot o F h v σ env Henv Ho Hsem Hc) as (k & s' & Hk & _).
+  exists k, s'. intros k'.
+  apply (only_user_exceptions (shape g) (gens_of g) apply raises tstore tget tset (tenv env) k _ (SVal v) s' Hk).
+Qed.
